@@ -56,6 +56,15 @@ func c05Data(k *fw.K, class int, shape []int) (*ref.T, string) {
 		if n := len(t.Data); n > 2 && k.Rng.Intn(2) == 0 {
 			t.Data[k.Rng.Intn(n)] = 0
 		}
+		if n := len(t.Data); n >= 2 && pat <= 2 && k.Rng.Intn(3) == 0 {
+			// exactly two elements of opposite sign near the top of the range (|x| > MaxFloat64/n): every order of
+			// summation keeps all partial sums finite, the mean is an ordinary number
+			i := k.Rng.Intn(n - 1)
+			t.Data[i], t.Data[i+1] = 1.5e308, -1.5e308
+			if k.Rng.Intn(2) == 0 {
+				t.Data[i], t.Data[i+1] = -1.5e308, 1.5e308
+			}
+		}
 		return t, []string{"all-equal", "ascending", "descending", "powers-of-two", "denormals", "1e150"}[pat]
 	case 3: // a large common offset relative to the spread (where one-pass variance formulas cancel catastrophically)
 		t := Shuffled(k.Rng, Unique(k.Rng, shape, 0.5, 4))
